@@ -242,6 +242,11 @@ def evaluate(chk: core.Check, cases):
             h2, kv2 = core.parse_kv(res[f'i{k}'])
             v, sc = core.parse_rat(kv2['npv']), core.parse_rat(kv2['scale'])
             chk.tag('irr/nonzero')
+            # hypotheses of C04.irr_unique on this cash flow: outlays first, then returns, at least one positive return
+            cfl = py['TotalRevenue']
+            m = next((i for i, x in enumerate(cfl) if x > 0), len(cfl))
+            conventional = m >= 1 and all(x <= 0 for x in cfl[:m]) and all(x >= 0 for x in cfl[m:]) and any(x > 0 for x in cfl[m:])
+            chk.tag('irr/' + ('conventional-cashflow:root-unique-by-theorem' if conventional else 'non-conventional-cashflow:root-not-shown-unique'))
             if abs(v) > Fraction(1, 10**6) * max(sc, Fraction(1, 10**9)):
                 chk.fail('C04/irr', 'reported non-zero IRR does not zero the NPV of the reported cash flow',
                          {**base, 'IRR_percent': py['ProjectIRR'], 'npv_at_irr': float(v), 'sum_abs_terms': float(sc), 'cashflow': py['TotalRevenue']})
@@ -295,7 +300,7 @@ def run(chk: core.Check) -> int:
     evaluate(chk, gen_cases(chk.rng, 400 if quick else 4000))
     if (not clean or chk.breaks) and not chk.failures:
         evaluate(chk, gen_cases(chk.rng, 1500))
-    chk.assumptions += ['IRR is an observed value (numpy_financial root finder): only the clause "non-zero IRR zeroes the NPV" is checked, at 1e-6 of the sum of absolute discounted terms',
+    chk.assumptions += ['IRR is an observed value (numpy_financial root finder): the clause "non-zero IRR zeroes the NPV" is checked at 1e-6 of the sum of absolute discounted terms; for conventional cash flows (tagged) C04.irr_unique shows that rate is the only one above -100 %',
                         "payback 0.0 is the code's encoding of 'N/A' (Outputs.py renders it so)"]
     return chk.finish(rule=RULE)
 
